@@ -213,7 +213,7 @@ func init() {
 		}
 		return &vf.Check{
 			ID: "C05", Level: "model_checking",
-			Rule: "every string of the bounded text spaces (token sequences, raw byte sequences, preamble line sequences) is fed to 6 reader entry points under recover and a per-case watchdog; non-trivial = at least one entry point returned an AST (which is then PRINTed)",
+			Rule:        "every string of the bounded text spaces (token sequences, raw byte sequences, preamble line sequences) is fed to 6 reader entry points under recover and a per-case watchdog; non-trivial = at least one entry point returned an AST (which is then PRINTed)",
 			Assumptions: []string{"texts above the length bound or outside the alphabets are not covered", "a hang is a case exceeding the 5 s watchdog (reading a text of a few tokens takes microseconds)"},
 			Families: []*vf.Family{
 				mk("tokens", fmt.Sprintf("all sequences of <=4 (quick) / <=5 (thorough) tokens over %d tokens, joined by one space", len(c05Tokens)),
